@@ -113,6 +113,20 @@ def run_case(a):
             extra = sorted(set(o) - set(base))
             if extra != ["dependency-graph.dot", "dependency-graph.txt"]:
                 viol.append(("C13 visualize-deps-file-set", "--visualize-deps adds %s instead of its two files" % extra, wit({"flag": "--visualize-deps"})))
+        # (2a) the same directories spelled differently on the command line (relative, ./, trailing slash, dot segments, doubled slash)
+        import os as _os
+        for k, (sp_src, sp_out) in enumerate([("./src", "./out_sp0"), ("src/", "out_sp1/"), ("./src/../src", "./x/../out_sp2"), (_os.path.join(root, "src") + "/", root + "//out_sp3")]):
+            r = common.run([cli, "tauri-typegen", "generate", "-p", sp_src, "-o", sp_out, "-v", mode], cwd=root, hash_seed=hs0)
+            stats["runs"] += 1
+            if r.timed_out:
+                continue
+            got = common.read_outputs(_os.path.join(root, "out_sp%d" % k)) if r.rc == 0 else None
+            if got is None or not got:
+                viol.append(("C13 path-spelling run-fails-or-writes-elsewhere spelling=%d" % k, "-p %s -o %s (cwd = project root): rc=%s, files in the named directory: %s; %s" % (
+                    sp_src, sp_out, r.rc, sorted(got or {}), (r.err + r.out)[-160:]), wit({"spelling": [sp_src, sp_out]})))
+                continue
+            for (f, kind) in diff_kind(base, got):
+                viol.append(("C13 path-spelling-changes-%s file=%s" % (kind, f), "-p %s -o %s: %s differs from the run with absolute paths (%s)" % (sp_src, sp_out, f, kind), wit({"spelling": [sp_src, sp_out]})))
         # (2b) the other two entry paths: the library call generate_from_config and the build-script path are runs on the same
         #      sources and configuration as well
         if drv:
